@@ -1280,6 +1280,12 @@ func (pc *PeerConnection) SetRemoteDescription(desc SessionDescription) error {
 			}
 
 			transceiver, localTransceivers = findByMid(midValue, localTransceivers)
+			if transceiver != nil && transceiver.kind != kind {
+				// As for the application section above: a transceiver of another kind can only
+				// have this mid provisionally, from a CreateOffer whose offer was never applied.
+				transceiver.mid.Store("")
+				transceiver = nil
+			}
 			if transceiver == nil {
 				transceiver, localTransceivers = satisfyTypeAndDirection(kind, direction, localTransceivers)
 			} else if direction == RTPTransceiverDirectionInactive {
